@@ -999,7 +999,9 @@ def _mini_eval(fn: ast.FunctionDef, env: dict, allowed_calls: set[str], max_step
     SAFE = {"set": set, "any": any, "all": all, "bool": bool, "len": len, "frozenset": frozenset, "list": list, "isinstance": isinstance,
             "tuple": tuple, "repr": repr, "str": str, "min": min, "max": max, "sorted": sorted, "enumerate": enumerate, "zip": zip,
             "range": range, "dict": dict, "int": int, "float": float, "complex": complex, "bytes": bytes, "ord": ord, "chr": chr,
-            "abs": abs, "sum": sum, "type": type, "next": next, "iter": iter}
+            "abs": abs, "sum": sum, "type": type, "next": next, "iter": iter, "SyntaxError": SyntaxError, "ValueError": ValueError,
+            "TypeError": TypeError, "KeyError": KeyError, "IndexError": IndexError, "Exception": Exception,
+            "UnicodeError": UnicodeError, "StopIteration": StopIteration, "AttributeError": AttributeError}
 
     def check(e):
         for n in ast.walk(e):
